@@ -1,5 +1,5 @@
 (** C18 — Raw UDP connection emits valid IPv4/UDP frames and reads only its own. *)
-From DV Require Import Base.Bytes V4.Model Raw.Model Raw.Proofs Raw.Spec Raw.Bound.
+From DV Require Import Base.Bytes V4.Model Raw.Model Raw.Proofs Raw.Spec Raw.Bound Raw.Independent.
 
 (** every datagram leaves as: version 4 / IHL 5 (0x45), total length 28+n, TTL 64,
     protocol 17, source and destination address, then source port, destination
@@ -89,3 +89,19 @@ Example C18_example_short_payload :
     ([n2b 69; x00; x00; n2b 24; x00; x00; x00; x00; n2b 64; n2b 17; x00; x00; x0a; x00; x00; x01; xff; xff; xff; xff;
       x00; n2b 67; x00; n2b 68; x00; x08; x00; x00] ++ zeros 18) = Ok Skip.
 Proof. vm_compute. reflexivity. Qed.
+
+(** what delivery does NOT depend on: type of service, identification, flags and fragment offset
+    (the Don't-Fragment bit of every ordinary UDP socket), time to live, header checksum - any of
+    these octets (1, 4-8, 10, 11), any number of them, overwritten with any values, leave the
+    reading of the frame as it was: same verdict, same payload, same source *)
+Theorem C18_delivery_ignores_dont_care_octets : forall (ws : list (nat * byte)) bound blen f,
+  Forall (fun w => dont_care (fst w) = true) ws ->
+  read_frame bound blen (fold_left (fun g w => set_nth (fst w) (snd w) g) ws f) = read_frame bound blen f.
+Proof. exact read_frame_ignores_all. Qed.
+Print Assumptions C18_delivery_ignores_dont_care_octets.
+
+Example C18_example_dont_fragment :
+  let f := udp4pkt [x01; x02; x03] (mkAddr (Some [x0a; x00; x00; x02]) 68) (mkAddr (Some [x0a; x00; x00; x01]) 67) in
+  read_frame None 100 (set_nth 6 x40 f) = read_frame None 100 f /\ nth 6 (set_nth 6 x40 f) x00 <> nth 6 f x00
+  /\ exists p s sp, read_frame None 100 f = Ok (Deliver p s sp).
+Proof. exact dont_fragment_example. Qed.
